@@ -14,18 +14,18 @@ Local Open Scope N_scope.
 Notation hist_of := Fleet.hist_of.
 
 Record Steady (st : fstate) : Prop := mkSteady {
-  sd_inv : LoopInv st;
-  sd_defined : ∀ s sd, d_shards (f_db st) !! s = Some sd → is_Some (f_hist st !! s) ∧ sd_members sd ≠ [];
-  sd_hosts : ∀ a fh, f_hosts st !! a = Some fh → fh_up fh = true ∧ fh_queue fh = [] ∧ fh_out fh = None;
-  sd_boxes : d_requests (f_db st) = ∅ ∧ d_outgoing (f_db st) = ∅ ∧ d_kill (f_db st) = [];
-  sd_members : ∀ s h, f_hist st !! s = Some h →
+  sy_inv : LoopInv st;
+  sy_defined : ∀ s sd, d_shards (f_db st) !! s = Some sd → is_Some (f_hist st !! s) ∧ sd_members sd ≠ [];
+  sy_hosts : ∀ a fh, f_hosts st !! a = Some fh → fh_up fh = true ∧ fh_queue fh = [] ∧ fh_out fh = None;
+  sy_boxes : d_requests (f_db st) = ∅ ∧ d_outgoing (f_db st) = ∅ ∧ d_kill (f_db st) = [];
+  sy_members : ∀ s h, f_hist st !! s = Some h →
     ∃ c, d_view (f_db st) !! s = Some c ∧ s_cci c = cur_version h ∧
          ∀ rid a, cur_members h !! rid = Some a →
            ∃ fh lr, f_hosts st !! a = Some fh ∧ fh_reps fh !! (s, rid) = Some lr ∧
                     lr_running lr = true ∧ lr_ver lr = cur_version h;
-  sd_nostray : ∀ a fh s rid lr, f_hosts st !! a = Some fh → fh_reps fh !! (s, rid) = Some lr → lr_running lr = true →
+  sy_nostray : ∀ a fh s rid lr, f_hosts st !! a = Some fh → fh_reps fh !! (s, rid) = Some lr → lr_running lr = true →
     ∃ h, f_hist st !! s = Some h ∧ cur_members h !! rid = Some a ∧ lr_ver lr = cur_version h;
-  sd_time : 0 < d_tick (f_db st) }.
+  sy_time : 0 < d_tick (f_db st) }.
 
 (* the member's record in Drummer's view carries the report time t *)
 Definition stamped_at (d : db) (s rid t : N) : Prop :=
@@ -47,6 +47,12 @@ Lemma steps_disabled P st evs : (∀ ev, ev ∈ evs → fstep P st ev = FDisable
 Proof.
   induction evs as [|ev evs IH]; intros Hall; cbn [steps]; [done|].
   rewrite (Hall ev) by left. apply IH. intros ev' Hin. apply Hall. by right.
+Qed.
+
+Lemma filter_all {A} (Pr : A → Prop) `{∀ x, Decision (Pr x)} (l : list A) : (∀ x, x ∈ l → Pr x) → filter Pr l = l.
+Proof.
+  induction l as [|x l IH]; intros Hall; [done|]. rewrite filter_cons, decide_True by (apply Hall; left).
+  f_equal. apply IH. intros y Hy. apply Hall. by right.
 Qed.
 
 Lemma cur_entry_at st s h :
@@ -77,8 +83,8 @@ Proof.
   intros HS Ha Hci. unfold host_report in Hci. cbn [rp_infos] in Hci.
   apply elem_of_list_fmap in Hci as ([[s rid] lr] & -> & Hin). apply elem_of_list_filter in Hin as [Hrun Hin].
   apply sorted_reps_elem in Hin. cbn in Hrun, Hin.
-  destruct (sd_nostray _ HS _ _ _ _ _ Ha Hin Hrun) as (h & Hh & Hm & Hver).
-  destruct (sd_members _ HS _ _ Hh) as (c & Hc & Hcci & _).
+  destruct (sy_nostray _ HS _ _ _ _ _ Ha Hin Hrun) as (h & Hh & Hm & Hver).
+  destruct (sy_members _ HS _ _ Hh) as (c & Hc & Hcci & _).
   unfold rep_info, complete. cbn [fst snd]. destruct (lr_ver lr =? 0); [done|].
   unfold view_vers. rewrite lookup_fmap, Hc. cbn. rewrite Hcci, Hver, N.leb_refl. cbn. done.
 Qed.
@@ -114,8 +120,8 @@ Lemma snap_deliver st R t a fh plog :
          reported st' (λ x, R x ∨ x = a) t ∧ d_tick (f_db st') = d_tick (f_db st) ∧
          f_hosts st' = f_hosts st ∧ f_hist st' = f_hist st.
 Proof.
-  intros HS HR Ht Ha. destruct (sd_hosts _ HS _ _ Ha) as (Hup & Hq & Hout).
-  pose proof (sd_inv _ HS) as HI.
+  intros HS HR Ht Ha. destruct (sy_hosts _ HS _ _ Ha) as (Hup & Hq & Hout).
+  pose proof (sy_inv _ HS) as HI.
   set (r := host_report (f_db st) (f_hist st) a fh plog).
   set (fh1 := mkFHost true (fh_region fh) (fh_reps fh) (fh_queue fh) (Some r)).
   set (st1 := set_host st a fh1).
@@ -135,7 +141,7 @@ Proof.
   assert (Hn : next P (f_db st) (CReport r) = Some d') by (unfold next; by rewrite Es).
   pose proof Hn as Hn'. apply next_cases in Hn' as [[Hf' _]|[_ (view' & kill' & Hvu & Ed')]];
     [rewrite (li_failed _ _ _ _ _ HI) in Hf'; done|].
-  destruct (sd_boxes _ HS) as (Hrq & Hog & Hkl).
+  destruct (sy_boxes _ HS) as (Hrq & Hog & Hkl).
   destruct (report_result_all (f_db st) (stamp (f_db st) r) view' kill' (li_deadline _ _ _ _ _ HI)) as (F1 & F2 & F3 & F4 & F5 & F6 & _ & _).
   destruct (report_result_quiet (f_db st) (stamp (f_db st) r) view' kill' (li_deadline _ _ _ _ _ HI) Hrq Hog) as [Hrq' Hog'].
   rewrite <- Ed' in F1, F2, F3, F4, F5, F6, Hrq', Hog'.
@@ -161,7 +167,7 @@ Proof.
     cbn [stamp rp_infos] in Hin. unfold r, host_report in Hin. cbn [rp_infos] in Hin.
     apply elem_of_list_fmap in Hin as ([[s rid] lr] & -> & Hin). apply elem_of_list_filter in Hin as [Hrun Hin].
     apply sorted_reps_elem in Hin. cbn in Hrun, Hin. cbn [fst snd] in Hl, Hkr.
-    destruct (sd_nostray _ HS _ _ _ _ _ Ha Hin Hrun) as (h & Hh & Hm & Hver).
+    destruct (sy_nostray _ HS _ _ _ _ _ Ha Hin Hrun) as (h & Hh & Hm & Hver).
     assert (Hs : si_shard (rep_info (view_vers (f_db st)) (f_hist st) (s, rid) lr) = s) by (unfold rep_info; by destruct (lr_ver lr =? 0)).
     rewrite Hs in Hl. destruct (Hvi _ _ Hl) as (_ & HH & _). unfold Hf, hist_of in HH. rewrite Hh in HH. cbn in HH.
     apply entry_at_Some in HH. pose proof (hist_wf_le _ _ (li_hist _ _ _ _ _ HI _ _ Hh) _ HH) as Hle. cbn in Hle.
@@ -188,17 +194,17 @@ Proof.
   - (* Steady *)
     split; cbn [f_db f_hosts f_hist f_seen].
     + exact HI2.
-    + rewrite F3. apply (sd_defined _ HS).
-    + apply (sd_hosts _ HS).
+    + rewrite F3. apply (sy_defined _ HS).
+    + apply (sy_hosts _ HS).
     + rewrite Hrq', Hog', F5, Hkill'. done.
-    + intros s h Hh. destruct (sd_members _ HS s h Hh) as (c & Hc & Hcc & Hmem).
+    + intros s h Hh. destruct (sy_members _ HS s h Hh) as (c & Hc & Hcc & Hmem).
       destruct (Hcci s c Hc) as (c' & Hc' & Hcc' & _). exists c'. split; [done|]. split; [congruence|done].
-    + apply (sd_nostray _ HS).
-    + rewrite Htick. apply (sd_time _ HS).
+    + apply (sy_nostray _ HS).
+    + rewrite Htick. apply (sy_time _ HS).
   - (* reported *)
     intros a0 fh0 s rid lr HRa Ha0 Hk Hrun. cbn [f_db f_hosts] in *.
-    destruct (sd_nostray _ HS _ _ _ _ _ Ha0 Hk Hrun) as (h & Hh & Hm & Hver).
-    destruct (sd_members _ HS s h Hh) as (c & Hc & Hcc & _).
+    destruct (sy_nostray _ HS _ _ _ _ _ Ha0 Hk Hrun) as (h & Hh & Hm & Hver).
+    destruct (sy_members _ HS s h Hh) as (c & Hc & Hcc & _).
     destruct (Hcci s c Hc) as (c' & Hc' & _ & Hdom).
     assert (is_Some (s_reps c' !! rid)) as [n' Hn'].
     { apply elem_of_dom. rewrite Hdom. apply elem_of_dom.
@@ -251,7 +257,7 @@ Qed.
 (** ** executions, catch-up: nothing to do *)
 Lemma steady_exec st a : Steady st → is_Some (f_hosts st !! a) → fstep P st (EExec a true) = FOk st.
 Proof.
-  intros HS [fh Ha]. destruct (sd_hosts _ HS _ _ Ha) as (Hup & Hq & Hout).
+  intros HS [fh Ha]. destruct (sy_hosts _ HS _ _ Ha) as (Hup & Hq & Hout).
   cbn [fstep]. rewrite Ha, Hup, Hq. cbn [exec_all fst snd].
   f_equal. destruct st as [d hosts hist seen]. cbn in *. f_equal. apply insert_id.
   destruct fh as [u rg rp qu ou]. cbn in *. congruence.
@@ -271,9 +277,9 @@ Proof.
   apply elem_of_list_bind in Hev as ([[s rid] lr] & Hev & Hin). cbn [fst snd] in Hev.
   destruct (_ && _); [|by apply elem_of_nil in Hev]. apply elem_of_list_singleton in Hev as ->.
   apply sorted_reps_elem in Hin. cbn in Hin. cbn [fstep]. rewrite Ha, Hin.
-  destruct (sd_hosts _ HS _ _ Ha) as (Hup & _). rewrite Hup. cbn [andb].
+  destruct (sy_hosts _ HS _ _ Ha) as (Hup & _). rewrite Hup. cbn [andb].
   destruct (lr_running lr) eqn:Hrun; [|done]. cbn [andb].
-  destruct (sd_nostray _ HS _ _ _ _ _ Ha Hin Hrun) as (h & Hh & _ & Hver).
+  destruct (sy_nostray _ HS _ _ _ _ _ Ha Hin Hrun) as (h & Hh & _ & Hver).
   unfold hist_of. rewrite Hh. cbn. rewrite Hver, N.ltb_irrefl. done.
 Qed.
 
@@ -286,7 +292,7 @@ Lemma steady_tick st t :
   ∃ st', fstep P st ETick = FOk st' ∧ Steady st' ∧ stamped_all st' t ∧ d_tick (f_db st') = d_tick (f_db st) + p_step P ∧
          f_hosts st' = f_hosts st ∧ f_hist st' = f_hist st.
 Proof.
-  intros HS Hst. pose proof (sd_inv _ HS) as HI.
+  intros HS Hst. pose proof (sy_inv _ HS) as HI.
   pose proof (step_tick_no_panic P st HI) as Hnp. destruct (fstep P st ETick) as [st'| |] eqn:E; [| |done].
   2:{ cbn [fstep] in E. by destruct (db_step P (f_db st) CTick). }
   pose proof (step_tick P st st' HI E) as HI'.
@@ -320,10 +326,10 @@ Lemma steady_view_members st s c rid n :
   Steady st → d_view (f_db st) !! s = Some c → s_reps c !! rid = Some n →
   ∃ h a fh lr, f_hist st !! s = Some h ∧ f_hosts st !! a = Some fh ∧ fh_reps fh !! (s, rid) = Some lr ∧ lr_running lr = true.
 Proof.
-  intros HS Hc Hn. pose proof (sd_inv _ HS) as HI.
+  intros HS Hc Hn. pose proof (sy_inv _ HS) as HI.
   destruct (li_view _ _ _ _ _ HI s c Hc) as (_ & HH & _). unfold Hf, hist_of in HH.
   destruct (f_hist st !! s) as [h|] eqn:Hh; [|done]. cbn in HH.
-  destruct (sd_members _ HS s h Hh) as (c' & Hc' & Hcc & Hmem). assert (c' = c) as -> by congruence.
+  destruct (sy_members _ HS s h Hh) as (c' & Hc' & Hcc & Hmem). assert (c' = c) as -> by congruence.
   destruct (cur_entry_at _ _ _ HI Hh) as [Hcur Hcurin].
   rewrite Hcc, Hcur in HH. injection HH as HH.
   assert (cur_members h !! rid = Some (r_addr n)) as Hm by (by rewrite HH, lookup_fmap, Hn).
@@ -351,14 +357,14 @@ Proof.
   destruct (steady_ticks st1 t nticks HS1 Hst1) as (st4 & E4 & HS4 & Hst4 & Ht4 & Hh4 & Hhi4). rewrite E4.
   destruct (fstep P st4 (ESchedule o)) as [st5| |] eqn:E5; try done. intros [= <-].
   assert (Hgap : d_tick (f_db st4) - t ≤ p_ttl P ∧ t ≠ 0).
-  { rewrite Ht4, Ht1. pose proof (sd_time _ HS). unfold t. split; lia. }
+  { rewrite Ht4, Ht1. pose proof (sy_time _ HS). unfold t. split; lia. }
   assert (Hclass : ∀ s c rid n, d_view (f_db st4) !! s = Some c → s_reps c !! rid = Some n →
             replica_failed P n (d_tick (f_db st4)) = false ∧ replica_waiting P n (d_tick (f_db st4)) = false).
   { intros s c rid n Hc Hn. specialize (Hst4 s c rid n Hc Hn). destruct Hgap as [Hg Hnz].
     unfold replica_waiting, replica_failed, entity_failed. rewrite Hst4.
     assert ((t =? 0) = false) as -> by (by apply N.eqb_neq). cbn [andb]. split; [|done]. apply N.ltb_ge. lia. }
   assert (Hhealthy : view_healthy P (ctx_of_db (f_db st4))).
-  { split; [by destruct (sd_boxes _ HS4) as (_ & _ & ?)|].
+  { split; [by destruct (sy_boxes _ HS4) as (_ & _ & ?)|].
     intros c Hc. unfold entries, ctx_of_db in Hc. cbn [c_view] in Hc. apply mvals_elem in Hc as [s Hs].
     unfold n_failed, n_wait, sr_failed, sr_wait, failed_replicas, waiting_replicas, now. cbn [c_tick ctx_of_db].
     split; apply length_zero_iff_nil, elem_of_nil_inv; intros n Hin; apply elem_of_list_filter in Hin as [Hcl Hin];
@@ -366,10 +372,10 @@ Proof.
   destruct (quiescent_step P st4 o st5 Hhealthy E5) as [-> ->].
   split; [done|]. split; [done|].
   (* healed *)
-  pose proof (sd_inv _ HS4) as HI4.
+  pose proof (sy_inv _ HS4) as HI4.
   unfold healed. apply forallb_forall. intros [s sd] Hin. apply elem_of_list_In, elem_of_map_to_list in Hin. cbn [fst].
-  destruct (sd_defined _ HS4 s sd Hin) as ([h Hh] & Hne).
-  destruct (sd_members _ HS4 s h Hh) as (c & Hc & Hcc & Hmem).
+  destruct (sy_defined _ HS4 s sd Hin) as ([h Hh] & Hne).
+  destruct (sy_members _ HS4 s h Hh) as (c & Hc & Hcc & Hmem).
   destruct (li_view _ _ _ _ _ HI4 s c Hc) as (_ & HH & _). unfold Hf, hist_of in HH. rewrite Hh in HH. cbn in HH.
   destruct (cur_entry_at _ _ _ HI4 Hh) as [Hcur Hcurin].
   rewrite Hcc, Hcur in HH. injection HH as HH.
@@ -380,15 +386,39 @@ Proof.
   - unfold to_shard_state. rewrite Hc. cbn [ss_unavailable]. apply negb_true_iff, negb_false_iff.
     unfold shard_available. apply bool_decide_eq_true.
     assert (Hok : ok_replicas P c (d_tick (f_db st4)) = mvals (s_reps c)).
-    { unfold ok_replicas. apply list_filter_iff_true. intros n Hn. apply mvals_elem in Hn as [rid Hn].
+    { unfold ok_replicas. apply filter_all. intros n Hn. apply mvals_elem in Hn as [rid Hn].
       destruct (Hclass s c rid n Hc Hn) as [H1 H2]. unfold replica_ok. by rewrite H1, H2. }
     rewrite Hok. unfold mvals. rewrite fmap_length. change (length (map_to_list (s_reps c))) with (size (s_reps c)).
     assert (Hsz : size (s_reps c) = size (cur_members h)) by (by rewrite HH, map_size_fmap).
     assert (0 < length (sd_members sd))%nat by (destruct (sd_members sd); [done|cbn; lia]).
-    unfold quorum_of. rewrite Hsz. apply Nat.div_lt_upper_bound; lia.
+    unfold quorum_of. rewrite Hsz. pose proof (Nat.div_lt (size (cur_members h)) 2 ltac:(lia) ltac:(lia)). lia.
   - apply bool_decide_eq_true. unfold shard_size. by rewrite Hin.
   - apply forallb_forall. intros [rid a] Hra. apply elem_of_list_In, elem_of_map_to_list in Hra. cbn [fst snd].
     destruct (Hmem _ _ Hra) as (fh & lr & Ha & Hk & Hrun & _). unfold member_running. rewrite Ha, Hk, Hrun.
-    destruct (sd_hosts _ HS4 _ _ Ha) as (Hup & _). by rewrite Hup.
+    destruct (sy_hosts _ HS4 _ _ Ha) as (Hup & _). by rewrite Hup.
 Qed.
 End Live.
+
+(** ** the decidable part of [Steady] (FleetRun.steady_restb, evaluated on the final state of replayed runs) *)
+Lemma steady_restb_sound st : LoopInv st → steady_restb st = true → Steady st.
+Proof.
+  intros HI H. unfold steady_restb in H.
+  repeat (apply andb_true_iff in H as [H ?]).
+  rename H0 into Htime, H1 into Hstray, H2 into Hmem, H3 into Hkill, H4 into Hout, H5 into Hreq, H6 into Hhosts.
+  apply bool_decide_eq_true in Hkill, Hout, Hreq. apply N.ltb_lt in Htime.
+  split; try done.
+  - intros s sd Hs. pose proof (forallb_map_to_list _ _ H s sd Hs) as Hx. cbn [fst snd] in Hx.
+    apply andb_true_iff in Hx as [Hx1 Hx2]. apply bool_decide_eq_true in Hx1. apply negb_true_iff, bool_decide_eq_false in Hx2. done.
+  - intros a fh Ha. pose proof (forallb_map_to_list _ _ Hhosts a fh Ha) as Hx. cbn [fst snd] in Hx.
+    repeat (apply andb_true_iff in Hx as [Hx ?]). apply bool_decide_eq_true in H0, H1. done.
+  - intros s h Hh. pose proof (forallb_map_to_list _ _ Hmem s h Hh) as Hx. cbn [fst snd] in Hx.
+    destruct (d_view (f_db st) !! s) as [c|]; [|done]. apply andb_true_iff in Hx as [Hx1 Hx2]. apply N.eqb_eq in Hx1.
+    exists c. split; [done|]. split; [done|]. intros rid a Hra.
+    pose proof (forallb_map_to_list _ _ Hx2 rid a Hra) as Hy. cbn [fst snd] in Hy.
+    destruct (f_hosts st !! a) as [fh|] eqn:Ea; [|done]. destruct (fh_reps fh !! (s, rid)) as [lr|] eqn:Ek; [|done].
+    apply andb_true_iff in Hy as [Hy1 Hy2]. apply N.eqb_eq in Hy2. exists fh, lr. done.
+  - intros a fh s rid lr Ha Hk Hrun. pose proof (forallb_map_to_list _ _ Hstray a fh Ha) as Hx. cbn [fst snd] in Hx.
+    pose proof (forallb_map_to_list _ _ Hx (s, rid) lr Hk) as Hy. cbn [fst snd] in Hy. rewrite Hrun in Hy. cbn in Hy.
+    destruct (f_hist st !! s) as [h|] eqn:Eh; [|done]. apply andb_true_iff in Hy as [Hy1 Hy2].
+    apply bool_decide_eq_true in Hy1. apply N.eqb_eq in Hy2. exists h. done.
+Qed.
